@@ -34,7 +34,9 @@ def one(m):
         if bld.returncode != 0:
             res['status'] = 'does-not-compile'
         else:
-            t = subprocess.run('go test -count=1 -timeout 120s ./... 2>&1 | grep -v "^ok" | head -3', shell=True, cwd=d, env=env, capture_output=True, text=True)
+            # RECHECK=1: the input lists mutations already known to be invisible to the suite (a previous run's
+            # 'reported' / 'SURVIVED' records): only the checks are run again
+            t = subprocess.CompletedProcess([], 0, stdout='') if os.environ.get('RECHECK') else subprocess.run('go test -count=1 -timeout 120s ./... 2>&1 | grep -v "^ok" | head -3', shell=True, cwd=d, env=env, capture_output=True, text=True)
             if t.stdout.strip():
                 res['status'] = 'killed-by-suite'
             else:
